@@ -216,6 +216,11 @@ def malformed_lemma(fc):
             return E.method(req, 'execute', ctx)
         out = E.attempt(run)
         unchanged = tables_unchanged(E, ctx, before)
+        # whatever the bytes: a PDU the server itself rejects (exception response) or fails on (an exception escaping decode / execute)
+        # has changed nothing - no partial effect of a refused request
+        if not out.ok or (out.value is not None and E.classname(out.value) == 'ExceptionResponse'):
+            fkx = {'finding': 'C12-F2', 'region': True} if fc == 15 else {}
+            E.prove('malformed:a-refused-request-has-no-partial-effect', unchanged)
         if n < HEAD[fc]:
             E.prove('malformed:shorter-than-the-fixed-fields->no-change', unchanged)
             return
